@@ -123,7 +123,7 @@ CHECKS = [
     _c("C20", "Lean theorems on the stream-loop model + end-to-end differential run of the binary (dev+release) against FilterSpec",
        "Kernel-checked on the run_filters model (filters abstract): selected numbers are packet indices, written in input order, the end filter sees the packet count. FilterSpec (reference semantics + "
        "NP/PL/WL/TSS/TSU) is the oracle for random pcap streams × generated filter programs, with and without -s: which packets are written, order, multiplicity, output header = input header, program output.",
-       "Open: stream_loop_refines with concrete filters. Packet field access inside filters is C15–C17's."),
+       "Also kernel-checked: stream_loop_refines — the executable specification (FilterSpec.run, the oracle of the end-to-end engine, filters evaluated by the reference semantics) IS the stream loop: per packet in order, per filter in source order, multiplicity preserved (a packet selected by k action-less filters appears k times, consecutively), only action-less filters select, the end filter runs exactly once with NP = number of packets. Packet field access inside filters is C15–C17's."),
     _c("C23", "Lean theorems on the REPL state-carrying model + end-to-end histories through the real run_prompt (scripted-line hook) against the folded reference semantics",
        "Kernel-checked: a rejected line leaves the carried state unchanged, histories compose (state after ls1++ls2 = fold), rejected lines can be skipped. Random histories (definitions, redefinitions, "
        "functions, parse/compile errors incl. inside function bodies, runtime failures) run through the real loop; per-line program output and diagnostics class must equal ReplSpec.",
